@@ -413,6 +413,18 @@ def run(ctx):
             ctx.tag("history: after a failed call (malformed arguments)")
         classes, nodes, flat = gen_path(rng)
         ln = len(nodes)
+        if 2 <= ln <= 12 and rng.random() < 0.12 and not classes[0].startswith(("long almost-straight", "deep subdivision")):
+            # one point OBJECT (a list) in several slots of the node list: both handles of a piece, a closing
+            # node that reuses the first node's handle, any two slots - a path like any other (its values are
+            # what they are); splitting one piece must not move a point that another slot still refers to
+            nodes = [[list(pt) for pt in node] for node in nodes]
+            for _ in range(rng.randint(1, 3)):
+                if rng.random() < 0.5:
+                    i = rng.randrange(ln - 1)
+                    nodes[i + 1][0] = nodes[i][2]
+                else:
+                    nodes[rng.randrange(ln)][rng.randrange(3)] = nodes[rng.randrange(ln)][rng.randrange(3)]
+            classes.append("shape: one point object (list) occupies several slots of the node list")
         classes.append("nodes=%s" % (str(ln) if ln <= 2 else "3..12"))
         key = (tuple(tuple(tuple(pt) for pt in node) for node in nodes), flat)
         ctx.case(classes, key, nontrivial=ln >= 2)
@@ -506,6 +518,7 @@ def run(ctx):
     for cls in ("exact arithmetic: control point at distance exactly the flatness", "exact:far end-cap",
                 "exact:near end-cap", "exact:perpendicular"):
         ctx.need(cls, 100)
+    ctx.need("shape: one point object (list) occupies several slots of the node list", 100)
     ctx.need("deep subdivision (> 16 successive halvings)", 1)
     ctx.need("monitor:deep subdivision evaluated (flatness, order and end nodes only)", 1)
     ctx.need("long almost-straight piece (chord / flatness 1e7.5 .. 1e10)", 40)
